@@ -1,11 +1,11 @@
 CONSTANTS
-  TTLs <- T13
-  Horizon = 6
-  MaxChanges = 2
-  MaxQueries = 4
-  SignedSet <- Bools
+  TTLs <- T12
+  Horizon = 4
+  MaxChanges = 1
+  MaxQueries = 3
+  SignedSet <- OnlyT
   ChildSet <- ChildLong
-  ChildTTLs <- TTLBoth
+  ChildTTLs <- TTLLong
   DeepSet <- OnlyF
   ValDelays <- NoDelay
   FloorWins = FALSE
@@ -15,8 +15,8 @@ CONSTANTS
   RealTime = TRUE
   CeilOnCut = TRUE
   CeilOnStore = TRUE
-  KindSet <- KindPos
-  Lats <- NoLat
+  KindSet <- KindNeg
+  Lats <- LatSlow
   CutAdmitsPast = FALSE
 INIT Init
 NEXT Next
